@@ -1,18 +1,2163 @@
-//! C16 — not implemented yet.
+//! C16 — written range and location lists read back as the same lists.
+//!
+//! Oracle (all written here, nothing shared with `gimli::write` or `gimli::read`):
+//!  * a small model of what a `write::RangeList` / `write::LocationList` *means*
+//!    (`classify_*`: which lists the chosen encoding cannot represent; `resolve`: the
+//!    ranges a list denotes relative to the unit's DW_AT_low_pc);
+//!  * an independent decoder of `.debug_ranges` / `.debug_loc` (legacy pair format) and
+//!    `.debug_rnglists` / `.debug_loclists` (DW_RLE_* / DW_LLE_* with the v5 table header);
+//!  * an independent encoder of the location expressions (so that entry references are
+//!    compared with the DIE offsets found in the emitted `.debug_info`).
+//!
+//! Pinned-behaviour notes (listed in `assumptions`): marker collisions of the legacy
+//! encoding (begin = all-ones) and 64-bit wrap-around of `begin + length` are recorded, not
+//! judged; ranges in the reader's tombstone/empty/inverted filter class may be reported or
+//! dropped by the resolved iterators (the raw iterators and the byte decoder are strict).
 
+use crate::asm::{get_uint, sleb_bytes, uleb_bytes, Asm, Enc};
 use crate::props::PropInfo;
-use crate::rt::Ctx;
+use crate::rt::{fnv, hex, Ctx, Rng};
+use gimli::constants as dw;
+use gimli::write as w;
+use gimli::write::Address;
+use serde_json::json;
+use std::collections::BTreeMap;
+
+/// Local skip (see report): `Range::StartLength`/`Location::StartLength` in a v<=4 unit
+/// computes `begin + length` with a plain `+` (src/write/range.rs, src/write/loc.rs): debug
+/// builds panic with "attempt to add with overflow", release builds wrap and emit a pair
+/// that is read back as something else.  While this is `true` such cases are still
+/// executed, but the panic / wrong read-back is only counted (`known.*`), not reported.
+const KNOWN_STARTLENGTH_OVERFLOW: bool = false;
 
 pub fn info() -> PropInfo {
     PropInfo {
         id: "C16",
         level: "exploration",
-        rule: "",
-        assumptions: &[],
-        exhaustive_subspaces: &[],
-        must_observe: &[],
+        rule: "Two streams. `table`: complete enumeration of single-item (optionally preceded by a BaseAddress item) range and location lists over 64 encodings (versions 2-5 x Dwarf32/64 x address sizes 1/2/4/8 x both byte orders) x unit DW_AT_low_pc absent/zero/non-zero x item kind (BaseAddress, OffsetPair, StartEnd, StartLength, DefaultLocation) x 10 value patterns (normal, empty, (0,0), begin 0, begin all-ones, begin all-ones-1, wrapping/inverted, too large for the address size, end all-ones, maximal length). `rand`: seeded write::Dwarf objects with 1-3 units (independent encodings, shared byte order), each with 1-6 range lists and 1-6 location lists incl. exact duplicates and near-duplicates, 0-5 items per list with boundary addresses/offsets/lengths (0, 1, max-1, max, wrap-around sums), location expressions built from 30 operation builders incl. in-unit entry references (typed ops, call4, GNU_parameter_ref, nested entry_value) and cross-unit references (call_ref, implicit_pointer, GNU_variable_value, also forward to later units), list attributes DW_AT_ranges/DW_AT_start_scope/DW_AT_location/DW_AT_frame_base on the root or nested DIEs, decoy low_pc/entry_pc/high_pc attributes; 60% of the cases are representable, 30% get exactly one unrepresentable item (empty, needs base, conflicts with base, default location before v5, value too large) and 10% one legacy-marker collision or 64-bit overflow. Every case is written with Sections<EndianVec>; the outcome is compared with the model's verdict; on success the sections are decoded by the harness's own decoder (encoding per version, v5 table header, lists tile the section exactly = one copy per distinct list) and read back with read::Dwarf (attr_ranges_offset/attr_ranges/raw_ranges, attr_locations_offset/attr_locations/raw_locations) and compared with the model (raw entries strictly, resolved ranges through the unit base address). A case is non-trivial when it contains at least one list item; distinct cases are counted by a digest of the complete case description.",
+        assumptions: &[
+            "an absent DW_AT_low_pc on the unit root means base address 0 for offset pairs (what read::Unit reports)",
+            "in a version 5 unit every kind is representable (empty ranges, offset pairs without a base, start/end after a base, default locations) and must be written",
+            "operand values that do not fit the unit's address size are unrepresentable and must be rejected; which Error variant is returned is only recorded",
+            "legacy marker collisions (begin = all-ones in a v<=4 pair) are generated and their outcome recorded, not judged; the other lists of such a case are still compared",
+            "resolved iterators may drop (or report with exactly the wrapped values) ranges that are empty, inverted after wrapping to the address size, or whose begin/base is >= all-ones-1 (reader tombstone filter); all other ranges must be reported exactly",
+            "DefaultLocation is judged on the raw entry and on its expression; the range the resolved iterator attaches to it ([0, 2^64-1) in the pinned tree) is secondary",
+            "v<=4 StartLength with begin+length >= 2^64 (panic in debug builds, wrap in release builds) is executed and counted as known.* while KNOWN_STARTLENGTH_OVERFLOW is set (reported as a gimli defect)",
+            "DIE offsets used for the expected entry references are taken from read::Dwarf's traversal of the emitted .debug_info (entries are tagged with DW_AT_name)",
+        ],
+        exhaustive_subspaces: &[
+            "single-item and [BaseAddress, item] lists: 64 encodings x 3 low_pc states x {range,location} x 5 kinds x 10 value patterns (stream `table`, both profiles)",
+        ],
+        must_observe: &[
+            "outcome.ok", "outcome.err", "outcome.unjudged",
+            "cls.Empty", "cls.NeedsBase", "cls.ConflictsBase", "cls.DefaultBeforeV5", "cls.TooLarge", "cls.Collision", "cls.Overflow64",
+            "err.InvalidRange", "err.MissingBaseAddress", "err.UnexpectedBaseAddress", "err.ValueTooLarge",
+            "ver.2", "ver.3", "ver.4", "ver.5", "addr.1", "addr.2", "addr.4", "addr.8", "fmt.32", "fmt.64", "endian.le", "endian.be",
+            "lowpc.absent", "lowpc.zero", "lowpc.nonzero",
+            "kind.ranges.Base", "kind.ranges.OffsetPair", "kind.ranges.StartEnd", "kind.ranges.StartLength",
+            "kind.locs.Base", "kind.locs.OffsetPair", "kind.locs.StartEnd", "kind.locs.StartLength", "kind.locs.Default",
+            "compared.ranges.legacy", "compared.ranges.v5", "compared.locs.legacy", "compared.locs.v5",
+            "dup.exact", "dup.near", "expr.entry_ref", "expr.cross_unit_ref", "expr.raw", "expr.empty", "expr.branch",
+            "resolved.must", "resolved.optional_absent", "tiling.legacy", "tiling.v5", "header.v5.dwarf32", "header.v5.dwarf64",
+            "units.multi",
+        ],
         run,
     }
 }
 
-pub fn run(_ctx: &mut Ctx) {}
+// ================================================================ case description
+
+#[derive(Clone, Debug, PartialEq, Eq, Hash)]
+enum XOp {
+    Simple(u8),
+    Addr(u64),
+    Constu(u64),
+    Consts(i64),
+    Fbreg(i64),
+    Breg(u16, i64),
+    Reg(u16),
+    Pick(u8),
+    Deref,
+    DerefSize(u8),
+    PlusUconst(u64),
+    Piece(u64),
+    BitPiece(u64, u64),
+    ImplicitValue(Vec<u8>),
+    // references to entries of the same unit (index into the unit's DIE list)
+    ConstType(usize, Vec<u8>),
+    RegvalType(u16, usize),
+    DerefType(u8, usize),
+    Convert(Option<usize>),
+    Reinterpret(Option<usize>),
+    Call(usize),
+    ParameterRef(usize),
+    // references to entries of any unit (unit index, DIE index)
+    CallRef(usize, usize),
+    VariableValue(usize, usize),
+    ImplicitPointer(usize, usize, i64),
+    EntryValue(Vec<XOp>),
+    /// DW_OP_skip / DW_OP_bra whose target is the end of the expression (top level only)
+    SkipToEnd,
+    BraToEnd,
+}
+
+#[derive(Clone, Debug, PartialEq, Eq, Hash)]
+enum XSpec {
+    Ops(Vec<XOp>),
+    Raw(Vec<u8>),
+}
+
+#[derive(Clone, Copy, Debug, PartialEq, Eq, Hash)]
+enum Kind {
+    Base,
+    OffsetPair,
+    StartEnd,
+    StartLength,
+    Default,
+}
+
+impl Kind {
+    fn name(self) -> &'static str {
+        match self {
+            Kind::Base => "Base",
+            Kind::OffsetPair => "OffsetPair",
+            Kind::StartEnd => "StartEnd",
+            Kind::StartLength => "StartLength",
+            Kind::Default => "Default",
+        }
+    }
+}
+
+/// One list item.  `a`,`b`: Base(a) / OffsetPair(a,b) / StartEnd(a,b) / StartLength(a, len=b).
+/// `x` is the location expression (location lists, every kind but Base).
+#[derive(Clone, Debug, PartialEq, Eq, Hash)]
+struct Item {
+    kind: Kind,
+    a: u64,
+    b: u64,
+    x: Option<XSpec>,
+}
+
+type ListSpec = Vec<Item>;
+
+#[derive(Clone, Copy, Debug, PartialEq, Eq)]
+enum LowPc {
+    Absent,
+    Zero,
+    NonZero(u64),
+}
+
+#[derive(Clone, Debug)]
+struct DieSpec {
+    parent: usize,
+    tag: u16,
+}
+
+#[derive(Clone, Debug)]
+struct AttrSpec {
+    die: usize,
+    name: u16,
+    list: usize,
+}
+
+#[derive(Clone, Debug)]
+struct UnitSpec {
+    enc: Enc,
+    low_pc: LowPc,
+    low_pc_last: bool,
+    decoys: u8,
+    dies: Vec<DieSpec>,
+    rlists: Vec<ListSpec>,
+    llists: Vec<ListSpec>,
+    rattrs: Vec<AttrSpec>,
+    lattrs: Vec<AttrSpec>,
+}
+
+#[derive(Clone, Debug)]
+struct CaseSpec {
+    le: bool,
+    units: Vec<UnitSpec>,
+}
+
+fn mask_of(enc: Enc) -> u64 {
+    enc.addr_mask()
+}
+
+// ================================================================ expressions: build + encode
+
+struct Ids {
+    units: Vec<w::UnitId>,
+    dies: Vec<Vec<w::UnitEntryId>>,
+}
+
+fn build_ops(e: &mut w::Expression, ops: &[XOp], u: usize, ids: &Ids) {
+    let mut pending = vec![];
+    let die = |uu: usize, k: usize| ids.dies[uu][k];
+    for op in ops {
+        match op {
+            XOp::Simple(b) => e.op(gimli::DwOp(*b)),
+            XOp::Addr(a) => e.op_addr(Address::Constant(*a)),
+            XOp::Constu(v) => e.op_constu(*v),
+            XOp::Consts(v) => e.op_consts(*v),
+            XOp::Fbreg(v) => e.op_fbreg(*v),
+            XOp::Breg(r, v) => e.op_breg(gimli::Register(*r), *v),
+            XOp::Reg(r) => e.op_reg(gimli::Register(*r)),
+            XOp::Pick(i) => e.op_pick(*i),
+            XOp::Deref => e.op_deref(),
+            XOp::DerefSize(n) => e.op_deref_size(*n),
+            XOp::PlusUconst(v) => e.op_plus_uconst(*v),
+            XOp::Piece(v) => e.op_piece(*v),
+            XOp::BitPiece(s, o) => e.op_bit_piece(*s, *o),
+            XOp::ImplicitValue(d) => e.op_implicit_value(d.clone().into_boxed_slice()),
+            XOp::ConstType(k, d) => e.op_const_type(die(u, *k), d.clone().into_boxed_slice()),
+            XOp::RegvalType(r, k) => e.op_regval_type(gimli::Register(*r), die(u, *k)),
+            XOp::DerefType(n, k) => e.op_deref_type(*n, die(u, *k)),
+            XOp::Convert(k) => e.op_convert(k.map(|k| die(u, k))),
+            XOp::Reinterpret(k) => e.op_reinterpret(k.map(|k| die(u, k))),
+            XOp::Call(k) => e.op_call(die(u, *k)),
+            XOp::ParameterRef(k) => e.op_gnu_parameter_ref(die(u, *k)),
+            XOp::CallRef(uu, k) => e.op_call_ref(w::DebugInfoRef::Entry(ids.units[*uu], die(*uu, *k))),
+            XOp::VariableValue(uu, k) => e.op_variable_value(w::DebugInfoRef::Entry(ids.units[*uu], die(*uu, *k))),
+            XOp::ImplicitPointer(uu, k, off) => e.op_implicit_pointer(w::DebugInfoRef::Entry(ids.units[*uu], die(*uu, *k)), *off),
+            XOp::EntryValue(inner) => {
+                let mut x = w::Expression::new();
+                build_ops(&mut x, inner, u, ids);
+                e.op_entry_value(x);
+            }
+            XOp::SkipToEnd => pending.push(e.op_skip()),
+            XOp::BraToEnd => pending.push(e.op_bra()),
+        }
+    }
+    let end = e.next_index();
+    for p in pending {
+        e.set_target(p, end);
+    }
+}
+
+fn build_expr(x: &XSpec, u: usize, ids: &Ids) -> w::Expression {
+    match x {
+        XSpec::Raw(b) => w::Expression::raw(b.clone()),
+        XSpec::Ops(ops) => {
+            let mut e = w::Expression::new();
+            build_ops(&mut e, ops, u, ids);
+            e
+        }
+    }
+}
+
+/// Offsets found in the emitted `.debug_info`.
+struct Offs {
+    /// section offset of each unit header
+    unit: Vec<usize>,
+    /// per unit: DIE index -> offset within the unit
+    die: Vec<BTreeMap<usize, usize>>,
+}
+
+/// Independent encoder (opcode numbers from the DWARF 5 standard / GNU extensions).
+fn encode_ops(ops: &[XOp], enc: Enc, u: usize, offs: &Offs, top: bool) -> Option<Vec<u8>> {
+    let v5 = enc.version >= 5;
+    let mut a = Asm::new(enc.le);
+    a.map = false;
+    let mut branches: Vec<usize> = vec![];
+    let die = |uu: usize, k: usize| -> Option<u64> { offs.die.get(uu)?.get(&k).map(|x| *x as u64) };
+    let abs = |uu: usize, k: usize| -> Option<u64> { Some((*offs.unit.get(uu)? as u64).wrapping_add(die(uu, k)?)) };
+    for op in ops {
+        match op {
+            XOp::Simple(b) => {
+                a.u8(*b);
+            }
+            XOp::Addr(v) => {
+                a.u8(0x03).uint(enc.addr as usize, *v);
+            }
+            XOp::Constu(v) => {
+                if *v < 32 {
+                    a.u8(0x30 + *v as u8);
+                } else {
+                    a.u8(0x10).uleb(*v);
+                }
+            }
+            XOp::Consts(v) => {
+                a.u8(0x11).sleb(*v);
+            }
+            XOp::Fbreg(v) => {
+                a.u8(0x91).sleb(*v);
+            }
+            XOp::Breg(r, v) => {
+                if *r < 32 {
+                    a.u8(0x70 + *r as u8).sleb(*v);
+                } else {
+                    a.u8(0x92).uleb(*r as u64).sleb(*v);
+                }
+            }
+            XOp::Reg(r) => {
+                if *r < 32 {
+                    a.u8(0x50 + *r as u8);
+                } else {
+                    a.u8(0x90).uleb(*r as u64);
+                }
+            }
+            XOp::Pick(i) => match *i {
+                0 => {
+                    a.u8(0x12);
+                }
+                1 => {
+                    a.u8(0x14);
+                }
+                n => {
+                    a.u8(0x15).u8(n);
+                }
+            },
+            XOp::Deref => {
+                a.u8(0x06);
+            }
+            XOp::DerefSize(n) => {
+                a.u8(0x94).u8(*n);
+            }
+            XOp::PlusUconst(v) => {
+                a.u8(0x23).uleb(*v);
+            }
+            XOp::Piece(v) => {
+                a.u8(0x93).uleb(*v);
+            }
+            XOp::BitPiece(s, o) => {
+                a.u8(0x9d).uleb(*s).uleb(*o);
+            }
+            XOp::ImplicitValue(d) => {
+                a.u8(0x9e).uleb(d.len() as u64).bytes(d);
+            }
+            XOp::ConstType(k, d) => {
+                a.u8(if v5 { 0xa4 } else { 0xf4 }).uleb(die(u, *k)?).u8(d.len() as u8).bytes(d);
+            }
+            XOp::RegvalType(r, k) => {
+                a.u8(if v5 { 0xa5 } else { 0xf5 }).uleb(*r as u64).uleb(die(u, *k)?);
+            }
+            XOp::DerefType(n, k) => {
+                a.u8(if v5 { 0xa6 } else { 0xf6 }).u8(*n).uleb(die(u, *k)?);
+            }
+            XOp::Convert(k) => {
+                a.u8(if v5 { 0xa8 } else { 0xf7 });
+                match k {
+                    Some(k) => a.uleb(die(u, *k)?),
+                    None => a.u8(0),
+                };
+            }
+            XOp::Reinterpret(k) => {
+                a.u8(if v5 { 0xa9 } else { 0xf9 });
+                match k {
+                    Some(k) => a.uleb(die(u, *k)?),
+                    None => a.u8(0),
+                };
+            }
+            XOp::Call(k) => {
+                a.u8(0x99).u32(die(u, *k)? as u32);
+            }
+            XOp::ParameterRef(k) => {
+                a.u8(0xfa).u32(die(u, *k)? as u32);
+            }
+            XOp::CallRef(uu, k) => {
+                a.u8(0x9a).word(enc.fmt64, abs(*uu, *k)?);
+            }
+            XOp::VariableValue(uu, k) => {
+                a.u8(0xfd).word(enc.fmt64, abs(*uu, *k)?);
+            }
+            XOp::ImplicitPointer(uu, k, off) => {
+                a.u8(if v5 { 0xa0 } else { 0xf2 });
+                let size = if enc.version == 2 { enc.addr as usize } else { enc.word() as usize };
+                a.uint(size, abs(*uu, *k)?).sleb(*off);
+            }
+            XOp::EntryValue(inner) => {
+                let body = encode_ops(inner, enc, u, offs, false)?;
+                a.u8(if v5 { 0xa3 } else { 0xf3 }).uleb(body.len() as u64).bytes(&body);
+            }
+            XOp::SkipToEnd | XOp::BraToEnd => {
+                if !top {
+                    return None;
+                }
+                branches.push(a.len());
+                a.u8(if matches!(op, XOp::SkipToEnd) { 0x2f } else { 0x28 }).u16(0);
+            }
+        }
+    }
+    let total = a.len() as i64;
+    for b in branches {
+        let disp = total - (b as i64 + 3);
+        a.patch_uint(b + 1, 2, disp as i16 as u16 as u64);
+    }
+    Some(a.buf)
+}
+
+fn encode_expr(x: &XSpec, enc: Enc, u: usize, offs: &Offs) -> Option<Vec<u8>> {
+    match x {
+        XSpec::Raw(b) => Some(b.clone()),
+        XSpec::Ops(ops) => encode_ops(ops, enc, u, offs, true),
+    }
+}
+
+// ================================================================ model: representability
+
+#[derive(Clone, Copy, Debug, PartialEq, Eq)]
+enum Cls {
+    Ok,
+    Empty,
+    NeedsBase,
+    ConflictsBase,
+    DefaultBeforeV5,
+    TooLarge,
+    /// legacy pair whose first word is all-ones: reads back as a base address selection
+    Collision,
+    /// v<=4 StartLength with begin + length >= 2^64
+    Overflow64,
+}
+
+impl Cls {
+    fn name(self) -> &'static str {
+        match self {
+            Cls::Ok => "Ok",
+            Cls::Empty => "Empty",
+            Cls::NeedsBase => "NeedsBase",
+            Cls::ConflictsBase => "ConflictsBase",
+            Cls::DefaultBeforeV5 => "DefaultBeforeV5",
+            Cls::TooLarge => "TooLarge",
+            Cls::Collision => "Collision",
+            Cls::Overflow64 => "Overflow64",
+        }
+    }
+    fn is_err(self) -> bool {
+        matches!(self, Cls::Empty | Cls::NeedsBase | Cls::ConflictsBase | Cls::DefaultBeforeV5 | Cls::TooLarge)
+    }
+}
+
+fn unit_has_base(lp: LowPc) -> bool {
+    matches!(lp, LowPc::NonZero(v) if v != 0)
+}
+
+fn low_pc_value(lp: LowPc) -> u64 {
+    match lp {
+        LowPc::NonZero(v) => v,
+        _ => 0,
+    }
+}
+
+/// Class of one item given whether a base address is in effect before it.
+fn classify_item(enc: Enc, have_base: bool, it: &Item) -> Cls {
+    let m = mask_of(enc);
+    if enc.version >= 5 {
+        let too = match it.kind {
+            Kind::Base => it.a > m,
+            Kind::OffsetPair => false,
+            Kind::StartEnd => it.a > m || it.b > m,
+            Kind::StartLength => it.a > m,
+            Kind::Default => false,
+        };
+        return if too { Cls::TooLarge } else { Cls::Ok };
+    }
+    match it.kind {
+        Kind::Base => {
+            if it.a > m {
+                Cls::TooLarge
+            } else {
+                Cls::Ok
+            }
+        }
+        Kind::OffsetPair => {
+            if it.a == it.b {
+                Cls::Empty
+            } else if !have_base {
+                Cls::NeedsBase
+            } else if it.a > m || it.b > m {
+                Cls::TooLarge
+            } else if it.a == m {
+                Cls::Collision
+            } else {
+                Cls::Ok
+            }
+        }
+        Kind::StartEnd => {
+            if it.a == it.b {
+                Cls::Empty
+            } else if have_base {
+                Cls::ConflictsBase
+            } else if it.a > m || it.b > m {
+                Cls::TooLarge
+            } else if it.a == m {
+                Cls::Collision
+            } else {
+                Cls::Ok
+            }
+        }
+        Kind::StartLength => match it.a.checked_add(it.b) {
+            None => Cls::Overflow64,
+            Some(end) => {
+                if it.b == 0 {
+                    Cls::Empty
+                } else if have_base {
+                    Cls::ConflictsBase
+                } else if it.a > m || end > m {
+                    Cls::TooLarge
+                } else {
+                    Cls::Ok
+                }
+            }
+        },
+        Kind::Default => Cls::DefaultBeforeV5,
+    }
+}
+
+fn classify_list(enc: Enc, lp: LowPc, list: &ListSpec) -> Vec<Cls> {
+    let mut have = unit_has_base(lp);
+    let mut out = Vec::with_capacity(list.len());
+    for it in list {
+        out.push(classify_item(enc, have, it));
+        if it.kind == Kind::Base {
+            have = true;
+        }
+    }
+    out
+}
+
+fn list_clean(cls: &[Cls]) -> bool {
+    cls.iter().all(|c| *c == Cls::Ok)
+}
+
+#[derive(Clone, Copy, Debug, PartialEq)]
+enum Expect {
+    MustOk,
+    MustErr(Cls),
+    Unjudged,
+}
+
+struct Verdict {
+    expect: Expect,
+    has_overflow: bool,
+    has_collision: bool,
+    /// the only error class of the case when exactly one item is unrepresentable
+    single_err: Option<Cls>,
+}
+
+fn model_verdict(spec: &CaseSpec) -> Verdict {
+    let mut first_err = None;
+    let mut n_err = 0;
+    let mut has_overflow = false;
+    let mut has_collision = false;
+    for us in &spec.units {
+        // distinct lists only: the writer sees each value once
+        for (lists, _) in [(&us.rlists, false), (&us.llists, true)] {
+            for (i, l) in lists.iter().enumerate() {
+                if lists[..i].contains(l) {
+                    continue;
+                }
+                for c in classify_list(us.enc, us.low_pc, l) {
+                    // with the known defect fixed, a range ending beyond 2^64 must be rejected
+                    if c.is_err() || (c == Cls::Overflow64 && !KNOWN_STARTLENGTH_OVERFLOW) {
+                        n_err += 1;
+                        if first_err.is_none() {
+                            first_err = Some(c);
+                        }
+                    }
+                    has_overflow |= c == Cls::Overflow64 && KNOWN_STARTLENGTH_OVERFLOW;
+                    has_collision |= c == Cls::Collision;
+                }
+            }
+        }
+    }
+    let expect = if has_overflow {
+        // the overflow is evaluated before any check of that item; an earlier error may or
+        // may not pre-empt it
+        Expect::Unjudged
+    } else if let Some(c) = first_err {
+        Expect::MustErr(c)
+    } else if has_collision {
+        Expect::Unjudged
+    } else {
+        Expect::MustOk
+    };
+    Verdict { expect, has_overflow, has_collision, single_err: if n_err == 1 { first_err } else { None } }
+}
+
+// ================================================================ model: encoding-level items and resolution
+
+/// Normalised list entry, as the bytes of the encoding say it (shared by the model, the
+/// harness decoder and the rendering of gimli's raw iterator).
+#[derive(Clone, Debug, PartialEq, Eq)]
+enum DItem {
+    Base(u64),
+    /// legacy address-or-offset pair
+    Pair(u64, u64, Option<Vec<u8>>),
+    OffsetPair(u64, u64, Option<Vec<u8>>),
+    StartEnd(u64, u64, Option<Vec<u8>>),
+    StartLength(u64, u64, Option<Vec<u8>>),
+    Default(Vec<u8>),
+    Other(String),
+}
+
+/// What the encoding of `list` must contain (clean lists only).
+fn model_items(enc: Enc, list: &ListSpec, u: usize, offs: &Offs) -> Option<Vec<DItem>> {
+    let mut out = vec![];
+    for it in list {
+        let data = match &it.x {
+            Some(x) => Some(encode_expr(x, enc, u, offs)?),
+            None => None,
+        };
+        let d = if enc.version >= 5 {
+            match it.kind {
+                Kind::Base => DItem::Base(it.a),
+                Kind::OffsetPair => DItem::OffsetPair(it.a, it.b, data),
+                Kind::StartEnd => DItem::StartEnd(it.a, it.b, data),
+                Kind::StartLength => DItem::StartLength(it.a, it.b, data),
+                Kind::Default => DItem::Default(data.unwrap_or_default()),
+            }
+        } else {
+            match it.kind {
+                Kind::Base => DItem::Base(it.a),
+                Kind::OffsetPair | Kind::StartEnd => DItem::Pair(it.a, it.b, data),
+                Kind::StartLength => DItem::Pair(it.a, it.a.wrapping_add(it.b), data),
+                Kind::Default => DItem::Other("default location before v5".into()),
+            }
+        };
+        out.push(d);
+    }
+    Some(out)
+}
+
+#[derive(Clone, Debug)]
+struct RExp {
+    begin: u64,
+    end: u64,
+    must: bool,
+    default: bool,
+    data: Option<Vec<u8>>,
+}
+
+/// The ranges a list denotes through the unit's base address (mathematics in u128, then
+/// wrapped to the address size; `must` is false for the reader's filter class).
+fn resolve(enc: Enc, lp: LowPc, list: &ListSpec, items: &[DItem]) -> Vec<RExp> {
+    let m = mask_of(enc) as u128;
+    let tomb = m - 1;
+    let mut base = low_pc_value(lp) as u128;
+    let mut out = vec![];
+    for (it, d) in list.iter().zip(items.iter()) {
+        let data = match d {
+            DItem::Pair(_, _, x) | DItem::OffsetPair(_, _, x) | DItem::StartEnd(_, _, x) | DItem::StartLength(_, _, x) => x.clone(),
+            DItem::Default(x) => Some(x.clone()),
+            _ => None,
+        };
+        let (b, e, pair) = match it.kind {
+            Kind::Base => {
+                base = it.a as u128;
+                continue;
+            }
+            Kind::Default => {
+                out.push(RExp { begin: 0, end: u64::MAX, must: true, default: true, data });
+                continue;
+            }
+            Kind::OffsetPair => (base + it.a as u128, base + it.b as u128, true),
+            Kind::StartEnd => (it.a as u128, it.b as u128, false),
+            Kind::StartLength => (it.a as u128, it.a as u128 + it.b as u128, false),
+        };
+        let wrapped = b > m || e > m;
+        let (bw, ew) = (b & m, e & m);
+        let must = !wrapped && bw < tomb && bw < ew && !(pair && base >= tomb);
+        out.push(RExp { begin: bw as u64, end: ew as u64, must, default: false, data });
+    }
+    out
+}
+
+// ================================================================ independent decoders
+
+fn rd_uint(b: &[u8], pos: &mut usize, le: bool, n: usize) -> Result<u64, String> {
+    let end = pos.checked_add(n).ok_or("offset overflow")?;
+    if end > b.len() {
+        return Err(format!("truncated at {:#x} (need {} bytes)", *pos, n));
+    }
+    let v = get_uint(&b[*pos..end], le, n);
+    *pos = end;
+    Ok(v)
+}
+
+fn rd_uleb(b: &[u8], pos: &mut usize) -> Result<u64, String> {
+    let mut v: u64 = 0;
+    for i in 0..10 {
+        let Some(&x) = b.get(*pos) else { return Err(format!("truncated uleb at {:#x}", *pos)) };
+        *pos += 1;
+        let low = (x & 0x7f) as u64;
+        if i == 9 && low > 1 {
+            return Err("uleb overflow".into());
+        }
+        v |= low << (7 * i);
+        if x & 0x80 == 0 {
+            return Ok(v);
+        }
+    }
+    Err("uleb too long".into())
+}
+
+fn rd_bytes(b: &[u8], pos: &mut usize, n: u64) -> Result<Vec<u8>, String> {
+    let n = usize::try_from(n).map_err(|_| "length overflow")?;
+    let end = pos.checked_add(n).ok_or("offset overflow")?;
+    if end > b.len() {
+        return Err(format!("truncated block at {:#x} (need {} bytes)", *pos, n));
+    }
+    let v = b[*pos..end].to_vec();
+    *pos = end;
+    Ok(v)
+}
+
+/// Legacy `.debug_ranges` / `.debug_loc` list at `off`: (items, end offset).
+fn decode_legacy(b: &[u8], off: usize, le: bool, addr: u8, loc: bool) -> Result<(Vec<DItem>, usize), String> {
+    let n = addr as usize;
+    let m = if addr >= 8 { u64::MAX } else { (1u64 << (8 * addr as u32)) - 1 };
+    let mut pos = off;
+    let mut out = vec![];
+    loop {
+        if out.len() > 100_000 {
+            return Err("list too long".into());
+        }
+        let a = rd_uint(b, &mut pos, le, n)?;
+        let e = rd_uint(b, &mut pos, le, n)?;
+        if a == 0 && e == 0 {
+            return Ok((out, pos));
+        }
+        if a == m {
+            out.push(DItem::Base(e));
+            continue;
+        }
+        let data = if loc {
+            let len = rd_uint(b, &mut pos, le, 2)?;
+            Some(rd_bytes(b, &mut pos, len)?)
+        } else {
+            None
+        };
+        out.push(DItem::Pair(a, e, data));
+    }
+}
+
+/// DWARF 5 `.debug_rnglists` / `.debug_loclists` list at `off`: (items, end offset).
+fn decode_v5(b: &[u8], off: usize, le: bool, addr: u8, loc: bool) -> Result<(Vec<DItem>, usize), String> {
+    let n = addr as usize;
+    let mut pos = off;
+    let mut out = vec![];
+    let data = |pos: &mut usize| -> Result<Option<Vec<u8>>, String> {
+        if loc {
+            let len = rd_uleb(b, pos)?;
+            Ok(Some(rd_bytes(b, pos, len)?))
+        } else {
+            Ok(None)
+        }
+    };
+    loop {
+        if out.len() > 100_000 {
+            return Err("list too long".into());
+        }
+        let k = rd_uint(b, &mut pos, le, 1)? as u8;
+        // DW_RLE_*: 0 end, 4 offset_pair, 5 base_address, 6 start_end, 7 start_length
+        // DW_LLE_*: 0 end, 4 offset_pair, 5 default_location, 6 base_address, 7 start_end, 8 start_length
+        let k = if loc { k } else if k >= 5 { k + 1 } else { k };
+        match k {
+            0 => return Ok((out, pos)),
+            4 => {
+                let a = rd_uleb(b, &mut pos)?;
+                let e = rd_uleb(b, &mut pos)?;
+                let d = data(&mut pos)?;
+                out.push(DItem::OffsetPair(a, e, d));
+            }
+            5 => {
+                let d = data(&mut pos)?;
+                out.push(DItem::Default(d.unwrap_or_default()));
+            }
+            6 => out.push(DItem::Base(rd_uint(b, &mut pos, le, n)?)),
+            7 => {
+                let a = rd_uint(b, &mut pos, le, n)?;
+                let e = rd_uint(b, &mut pos, le, n)?;
+                let d = data(&mut pos)?;
+                out.push(DItem::StartEnd(a, e, d));
+            }
+            8 => {
+                let a = rd_uint(b, &mut pos, le, n)?;
+                let l = rd_uleb(b, &mut pos)?;
+                let d = data(&mut pos)?;
+                out.push(DItem::StartLength(a, l, d));
+            }
+            other => return Err(format!("unexpected entry kind {:#x} at {:#x}", other, pos - 1)),
+        }
+    }
+}
+
+#[derive(Debug, Clone)]
+struct V5Header {
+    fmt64: bool,
+    /// offset of the first byte after the table
+    end: usize,
+    version: u16,
+    addr: u8,
+    seg: u8,
+    count: u32,
+    /// offset of the first list
+    body: usize,
+}
+
+fn decode_v5_header(b: &[u8], off: usize, le: bool) -> Result<V5Header, String> {
+    let mut pos = off;
+    let mut len = rd_uint(b, &mut pos, le, 4)?;
+    let mut fmt64 = false;
+    if len == 0xffff_ffff {
+        fmt64 = true;
+        len = rd_uint(b, &mut pos, le, 8)?;
+    } else if len >= 0xffff_fff0 {
+        return Err(format!("reserved initial length {len:#x}"));
+    }
+    let end = usize::try_from(len).ok().and_then(|l| pos.checked_add(l)).ok_or("length overflow")?;
+    if end > b.len() {
+        return Err(format!("table length {len:#x} at {off:#x} exceeds the section ({:#x})", b.len()));
+    }
+    let version = rd_uint(b, &mut pos, le, 2)? as u16;
+    let addr = rd_uint(b, &mut pos, le, 1)? as u8;
+    let seg = rd_uint(b, &mut pos, le, 1)? as u8;
+    let count = rd_uint(b, &mut pos, le, 4)? as u32;
+    let skip = (count as usize).checked_mul(if fmt64 { 8 } else { 4 }).ok_or("count overflow")?;
+    let body = pos.checked_add(skip).ok_or("count overflow")?;
+    if body > end {
+        return Err("offset array exceeds the table".into());
+    }
+    Ok(V5Header { fmt64, end, version, addr, seg, count, body })
+}
+
+// ================================================================ gimli: write
+
+#[derive(Default, Clone)]
+struct Secs {
+    info: Vec<u8>,
+    abbrev: Vec<u8>,
+    str_: Vec<u8>,
+    line: Vec<u8>,
+    line_str: Vec<u8>,
+    ranges: Vec<u8>,
+    rnglists: Vec<u8>,
+    loc: Vec<u8>,
+    loclists: Vec<u8>,
+}
+
+impl Secs {
+    fn get(&self, id: gimli::SectionId) -> &[u8] {
+        use gimli::SectionId as S;
+        match id {
+            S::DebugInfo => &self.info,
+            S::DebugAbbrev => &self.abbrev,
+            S::DebugStr => &self.str_,
+            S::DebugLine => &self.line,
+            S::DebugLineStr => &self.line_str,
+            S::DebugRanges => &self.ranges,
+            S::DebugRngLists => &self.rnglists,
+            S::DebugLoc => &self.loc,
+            S::DebugLocLists => &self.loclists,
+            _ => &[],
+        }
+    }
+}
+
+struct WOut {
+    res: Result<(), String>,
+    secs: Secs,
+    /// per unit, per slot: index of the first slot with an equal id
+    rcanon: Vec<Vec<usize>>,
+    lcanon: Vec<Vec<usize>>,
+    /// `table.get(id)` returned a list equal to the one added
+    get_ok: bool,
+}
+
+fn addr(v: u64) -> Address {
+    Address::Constant(v)
+}
+
+fn build_range_list(l: &ListSpec) -> w::RangeList {
+    w::RangeList(
+        l.iter()
+            .map(|it| match it.kind {
+                Kind::Base => w::Range::BaseAddress { address: addr(it.a) },
+                Kind::OffsetPair => w::Range::OffsetPair { begin: it.a, end: it.b },
+                Kind::StartEnd => w::Range::StartEnd { begin: addr(it.a), end: addr(it.b) },
+                // Default does not exist for ranges; the generator never produces it
+                Kind::StartLength | Kind::Default => w::Range::StartLength { begin: addr(it.a), length: it.b },
+            })
+            .collect(),
+    )
+}
+
+fn build_loc_list(l: &ListSpec, u: usize, ids: &Ids) -> w::LocationList {
+    let empty = XSpec::Ops(vec![]);
+    w::LocationList(
+        l.iter()
+            .map(|it| {
+                let data = build_expr(it.x.as_ref().unwrap_or(&empty), u, ids);
+                match it.kind {
+                    Kind::Base => w::Location::BaseAddress { address: addr(it.a) },
+                    Kind::OffsetPair => w::Location::OffsetPair { begin: it.a, end: it.b, data },
+                    Kind::StartEnd => w::Location::StartEnd { begin: addr(it.a), end: addr(it.b), data },
+                    Kind::StartLength => w::Location::StartLength { begin: addr(it.a), length: it.b, data },
+                    Kind::Default => w::Location::DefaultLocation { data },
+                }
+            })
+            .collect(),
+    )
+}
+
+fn canon<T: PartialEq>(xs: &[T]) -> Vec<usize> {
+    (0..xs.len()).map(|i| (0..=i).find(|&j| xs[j] == xs[i]).unwrap_or(i)).collect()
+}
+
+fn build_and_write(spec: &CaseSpec) -> WOut {
+    let mut dwarf = w::Dwarf::new();
+    let mut ids = Ids { units: vec![], dies: vec![] };
+    // pass 1: units and entries
+    for us in &spec.units {
+        let mut unit = w::Unit::new(us.enc.encoding(), w::LineProgram::none());
+        let mut dies = vec![unit.root()];
+        for d in us.dies.iter().skip(1) {
+            let parent = dies[d.parent.min(dies.len() - 1)];
+            dies.push(unit.add(parent, gimli::DwTag(d.tag)));
+        }
+        let m = mask_of(us.enc);
+        let set_low_pc = |unit: &mut w::Unit| {
+            let root = unit.root();
+            match us.low_pc {
+                LowPc::Absent => {}
+                LowPc::Zero => unit.get_mut(root).set(dw::DW_AT_low_pc, w::AttributeValue::Address(addr(0))),
+                LowPc::NonZero(v) => unit.get_mut(root).set(dw::DW_AT_low_pc, w::AttributeValue::Address(addr(v))),
+            }
+        };
+        if !us.low_pc_last {
+            set_low_pc(&mut unit);
+        }
+        for (k, id) in dies.iter().enumerate() {
+            unit.get_mut(*id).set(dw::DW_AT_name, w::AttributeValue::String(format!("d{k}").into_bytes()));
+        }
+        // decoys: attributes that must not influence the base address
+        let root = unit.root();
+        if us.decoys & 1 != 0 {
+            unit.get_mut(root).set(dw::DW_AT_entry_pc, w::AttributeValue::Address(addr(0x33 & m)));
+        }
+        if us.decoys & 2 != 0 {
+            unit.get_mut(root).set(dw::DW_AT_high_pc, w::AttributeValue::Udata(0x100));
+        }
+        if us.decoys & 4 != 0 && dies.len() > 1 {
+            let v = if unit_has_base(us.low_pc) { 0 } else { 0x44 & m };
+            unit.get_mut(dies[1]).set(dw::DW_AT_low_pc, w::AttributeValue::Address(addr(v)));
+        }
+        if us.low_pc_last {
+            set_low_pc(&mut unit);
+        }
+        ids.units.push(dwarf.units.add(unit));
+        ids.dies.push(dies);
+    }
+    // pass 2: lists and the attributes referring to them
+    let mut rcanon = vec![];
+    let mut lcanon = vec![];
+    let mut get_ok = true;
+    for (u, us) in spec.units.iter().enumerate() {
+        let unit = dwarf.units.get_mut(ids.units[u]);
+        let mut rids = vec![];
+        for l in &us.rlists {
+            let built = build_range_list(l);
+            let id = unit.ranges.add(built.clone());
+            get_ok &= *unit.ranges.get(id) == built;
+            rids.push(id);
+        }
+        let mut lids = vec![];
+        for l in &us.llists {
+            let built = build_loc_list(l, u, &ids);
+            let id = unit.locations.add(built.clone());
+            get_ok &= *unit.locations.get(id) == built;
+            lids.push(id);
+        }
+        for a in &us.rattrs {
+            let die = ids.dies[u][a.die];
+            unit.get_mut(die).set(gimli::DwAt(a.name), w::AttributeValue::RangeListRef(rids[a.list]));
+        }
+        for a in &us.lattrs {
+            let die = ids.dies[u][a.die];
+            unit.get_mut(die).set(gimli::DwAt(a.name), w::AttributeValue::LocationListRef(lids[a.list]));
+        }
+        rcanon.push(canon(&rids));
+        lcanon.push(canon(&lids));
+    }
+    let endian = if spec.le { gimli::RunTimeEndian::Little } else { gimli::RunTimeEndian::Big };
+    let mut sections = w::Sections::new(w::EndianVec::new(endian));
+    let res = dwarf.write(&mut sections).map_err(|e| format!("{e:?}"));
+    let secs = Secs {
+        info: sections.debug_info.slice().to_vec(),
+        abbrev: sections.debug_abbrev.slice().to_vec(),
+        str_: sections.debug_str.slice().to_vec(),
+        line: sections.debug_line.slice().to_vec(),
+        line_str: sections.debug_line_str.slice().to_vec(),
+        ranges: sections.debug_ranges.slice().to_vec(),
+        rnglists: sections.debug_rnglists.slice().to_vec(),
+        loc: sections.debug_loc.slice().to_vec(),
+        loclists: sections.debug_loclists.slice().to_vec(),
+    };
+    WOut { res, secs, rcanon, lcanon, get_ok }
+}
+
+// ================================================================ gimli: read back
+
+#[derive(Debug, Clone)]
+struct RRes {
+    begin: u64,
+    end: u64,
+    data: Option<Vec<u8>>,
+}
+
+#[derive(Debug, Clone)]
+struct RAttr {
+    die: usize,
+    name: u16,
+    offset: usize,
+    raw: Result<Vec<DItem>, String>,
+    res: Result<Vec<RRes>, String>,
+}
+
+#[derive(Debug, Clone, Default)]
+struct RUnit {
+    version: u16,
+    addr: u8,
+    fmt64: bool,
+    low_pc: u64,
+    unit_off: usize,
+    dies: BTreeMap<usize, usize>,
+    rattrs: Vec<RAttr>,
+    lattrs: Vec<RAttr>,
+}
+
+type Slice<'a> = gimli::EndianSlice<'a, gimli::RunTimeEndian>;
+
+const ITER_LIMIT: usize = 100_000;
+
+fn bytes_of(e: &gimli::Expression<Slice<'_>>) -> Vec<u8> {
+    e.0.slice().to_vec()
+}
+
+fn raw_range_item(e: gimli::RawRngListEntry<usize>) -> DItem {
+    use gimli::RawRngListEntry as R;
+    match e {
+        R::AddressOrOffsetPair { begin, end } => DItem::Pair(begin, end, None),
+        R::BaseAddress { addr } => DItem::Base(addr),
+        R::OffsetPair { begin, end } => DItem::OffsetPair(begin, end, None),
+        R::StartEnd { begin, end } => DItem::StartEnd(begin, end, None),
+        R::StartLength { begin, length } => DItem::StartLength(begin, length, None),
+        other => DItem::Other(format!("{other:?}")),
+    }
+}
+
+fn raw_loc_item(e: gimli::RawLocListEntry<Slice<'_>>) -> DItem {
+    use gimli::RawLocListEntry as R;
+    match e {
+        R::AddressOrOffsetPair { begin, end, data } => DItem::Pair(begin, end, Some(bytes_of(&data))),
+        R::BaseAddress { addr } => DItem::Base(addr),
+        R::OffsetPair { begin, end, data } => DItem::OffsetPair(begin, end, Some(bytes_of(&data))),
+        R::StartEnd { begin, end, data } => DItem::StartEnd(begin, end, Some(bytes_of(&data))),
+        R::StartLength { begin, length, data } => DItem::StartLength(begin, length, Some(bytes_of(&data))),
+        R::DefaultLocation { data } => DItem::Default(bytes_of(&data)),
+        other => DItem::Other(format!("{other:?}")),
+    }
+}
+
+fn read_back(secs: &Secs, le: bool) -> Result<Vec<RUnit>, String> {
+    let endian = if le { gimli::RunTimeEndian::Little } else { gimli::RunTimeEndian::Big };
+    let dwarf: gimli::Dwarf<Slice<'_>> =
+        gimli::Dwarf::load(|id| -> Result<Slice<'_>, gimli::Error> { Ok(gimli::EndianSlice::new(secs.get(id), endian)) })
+            .map_err(|e| format!("load: {e:?}"))?;
+    let mut out = vec![];
+    let mut headers = dwarf.units();
+    loop {
+        if out.len() > 64 {
+            return Err("too many units".into());
+        }
+        let header = match headers.next() {
+            Ok(Some(h)) => h,
+            Ok(None) => break,
+            Err(e) => return Err(format!("units().next: {e:?}")),
+        };
+        let unit = dwarf.unit(header).map_err(|e| format!("Dwarf::unit: {e:?}"))?;
+        let enc = unit.encoding();
+        let mut ru = RUnit {
+            version: enc.version,
+            addr: enc.address_size,
+            fmt64: enc.format == gimli::Format::Dwarf64,
+            low_pc: unit.low_pc,
+            unit_off: unit.header.offset().0,
+            ..Default::default()
+        };
+        let mut cursor = unit.entries();
+        let mut n = 0;
+        loop {
+            n += 1;
+            if n > ITER_LIMIT {
+                return Err("entries do not end".into());
+            }
+            let entry = match cursor.next_dfs() {
+                Ok(Some(e)) => e,
+                Ok(None) => break,
+                Err(e) => return Err(format!("next_dfs: {e:?}")),
+            };
+            let off = entry.offset().0;
+            // marker
+            let mut k = None;
+            for a in entry.attrs() {
+                if a.name() == dw::DW_AT_name {
+                    if let gimli::AttributeValue::String(s) = a.value() {
+                        let s = s.slice();
+                        if s.len() >= 2 && s[0] == b'd' {
+                            k = std::str::from_utf8(&s[1..]).ok().and_then(|t| t.parse::<usize>().ok());
+                        }
+                    }
+                }
+            }
+            let Some(k) = k else { return Err(format!("entry at {off:#x} has no marker name")) };
+            if ru.dies.insert(k, off).is_some() {
+                return Err(format!("marker d{k} seen twice"));
+            }
+            for a in entry.attrs() {
+                let name = a.name();
+                if name == dw::DW_AT_ranges || name == dw::DW_AT_start_scope {
+                    let offset = dwarf.attr_ranges_offset(&unit, a.value()).map_err(|e| format!("attr_ranges_offset: {e:?}"))?;
+                    let Some(offset) = offset else {
+                        return Err(format!("attr_ranges_offset: None for {:?} (form {:?})", a.value(), a.form()));
+                    };
+                    // raw entries
+                    let raw = (|| -> Result<Vec<DItem>, String> {
+                        let mut it = dwarf.raw_ranges(&unit, offset).map_err(|e| format!("raw_ranges: {e:?}"))?;
+                        let mut v = vec![];
+                        while let Some(e) = it.next().map_err(|e| format!("raw next: {e:?}"))? {
+                            v.push(raw_range_item(e));
+                            if v.len() > ITER_LIMIT {
+                                return Err("raw iterator does not end".into());
+                            }
+                        }
+                        Ok(v)
+                    })();
+                    let res = (|| -> Result<Vec<RRes>, String> {
+                        let it = dwarf.attr_ranges(&unit, a.value()).map_err(|e| format!("attr_ranges: {e:?}"))?;
+                        let Some(mut it) = it else { return Err("attr_ranges: None".into()) };
+                        let mut v = vec![];
+                        while let Some(r) = it.next().map_err(|e| format!("ranges next: {e:?}"))? {
+                            v.push(RRes { begin: r.begin, end: r.end, data: None });
+                            if v.len() > ITER_LIMIT {
+                                return Err("range iterator does not end".into());
+                            }
+                        }
+                        Ok(v)
+                    })();
+                    ru.rattrs.push(RAttr { die: k, name: name.0, offset: offset.0, raw, res });
+                } else if name == dw::DW_AT_location || name == dw::DW_AT_frame_base {
+                    let offset = dwarf.attr_locations_offset(&unit, a.value()).map_err(|e| format!("attr_locations_offset: {e:?}"))?;
+                    let Some(offset) = offset else {
+                        return Err(format!("attr_locations_offset: None for {:?} (form {:?})", a.value(), a.form()));
+                    };
+                    let raw = (|| -> Result<Vec<DItem>, String> {
+                        let mut it = dwarf.raw_locations(&unit, offset).map_err(|e| format!("raw_locations: {e:?}"))?;
+                        let mut v = vec![];
+                        while let Some(e) = it.next().map_err(|e| format!("raw next: {e:?}"))? {
+                            v.push(raw_loc_item(e));
+                            if v.len() > ITER_LIMIT {
+                                return Err("raw iterator does not end".into());
+                            }
+                        }
+                        Ok(v)
+                    })();
+                    let res = (|| -> Result<Vec<RRes>, String> {
+                        let it = dwarf.attr_locations(&unit, a.value()).map_err(|e| format!("attr_locations: {e:?}"))?;
+                        let Some(mut it) = it else { return Err("attr_locations: None".into()) };
+                        let mut v = vec![];
+                        while let Some(r) = it.next().map_err(|e| format!("locations next: {e:?}"))? {
+                            v.push(RRes { begin: r.range.begin, end: r.range.end, data: Some(bytes_of(&r.data)) });
+                            if v.len() > ITER_LIMIT {
+                                return Err("location iterator does not end".into());
+                            }
+                        }
+                        Ok(v)
+                    })();
+                    ru.lattrs.push(RAttr { die: k, name: name.0, offset: offset.0, raw, res });
+                }
+            }
+        }
+        out.push(ru);
+    }
+    Ok(out)
+}
+
+// ================================================================ comparison
+
+fn match_resolved(exp: &[RExp], got: &[RRes]) -> Result<(u64, u64, u64, bool), String> {
+    let (mut must, mut absent, mut present, mut default_range_differs) = (0, 0, 0, false);
+    let mut j = 0;
+    for (i, e) in exp.iter().enumerate() {
+        let g = got.get(j);
+        let same = g.map_or(false, |g| g.data == e.data && (e.default || (g.begin == e.begin && g.end == e.end)));
+        if same {
+            if e.default && g.map_or(false, |g| g.begin != e.begin || g.end != e.end) {
+                default_range_differs = true;
+            }
+            j += 1;
+            if e.must {
+                must += 1;
+            } else {
+                present += 1;
+            }
+        } else if e.must {
+            return Err(format!("model entry {i} = {e:?} expected at read-back position {j}, found {g:?}"));
+        } else {
+            absent += 1;
+        }
+    }
+    if j != got.len() {
+        return Err(format!("read-back has {} entries, only {} are explained by the model; first extra: {:?}", got.len(), j, got.get(j)));
+    }
+    Ok((must, absent, present, default_range_differs))
+}
+
+fn xspec_obs(ctx: &mut Ctx, x: &XSpec) {
+    match x {
+        XSpec::Raw(_) => ctx.obs("expr.raw"),
+        XSpec::Ops(ops) => {
+            if ops.is_empty() {
+                ctx.obs("expr.empty");
+            }
+            let mut stack: Vec<&XOp> = ops.iter().collect();
+            while let Some(op) = stack.pop() {
+                match op {
+                    XOp::ConstType(..) | XOp::RegvalType(..) | XOp::DerefType(..) | XOp::Convert(Some(_)) | XOp::Reinterpret(Some(_)) | XOp::Call(_) | XOp::ParameterRef(_) => ctx.obs("expr.entry_ref"),
+                    XOp::CallRef(..) | XOp::VariableValue(..) | XOp::ImplicitPointer(..) => ctx.obs("expr.cross_unit_ref"),
+                    XOp::SkipToEnd | XOp::BraToEnd => ctx.obs("expr.branch"),
+                    XOp::EntryValue(inner) => {
+                        ctx.obs("expr.entry_value");
+                        stack.extend(inner.iter());
+                    }
+                    _ => {}
+                }
+            }
+        }
+    }
+}
+
+/// Lists of the legacy sections must tile the section exactly.
+fn tile_legacy(ctx: &mut Ctx, name: &str, sec: &[u8], mut iv: Vec<(usize, usize, usize)>, expected: usize, input: &dyn Fn() -> serde_json::Value) {
+    iv.sort();
+    iv.dedup();
+    let sig = format!("tiling.{name}");
+    if iv.len() != expected {
+        ctx.fail(&sig, &format!("{name}: {} distinct (offset, unit) lists are referenced, the model has {} distinct lists", iv.len(), expected), input);
+        return;
+    }
+    let mut pos = 0;
+    for (start, end, u) in &iv {
+        if *start != pos {
+            ctx.fail(&sig, &format!("{name}: list of unit {u} starts at {start:#x}, previous list ended at {pos:#x} (gap = extra copy or garbage, overlap = shared bytes)"), input);
+            return;
+        }
+        pos = *end;
+    }
+    if pos != sec.len() {
+        ctx.fail(&sig, &format!("{name}: lists end at {pos:#x}, section length is {:#x}", sec.len()), input);
+        return;
+    }
+    ctx.obs("tiling.legacy");
+}
+
+/// Tables of the v5 sections: header per unit, lists tile each table body exactly.
+/// `iv`: (start, end, unit index, address size, unit is Dwarf64).
+fn tile_v5(ctx: &mut Ctx, name: &str, sec: &[u8], le: bool, mut iv: Vec<(usize, usize, usize, u8, bool)>, tables: usize, expected: usize, input: &dyn Fn() -> serde_json::Value) {
+    iv.sort();
+    iv.dedup();
+    let sig = format!("tiling.{name}");
+    if iv.len() != expected {
+        ctx.fail(&sig, &format!("{name}: {} distinct (offset, unit) lists are referenced, the model has {} distinct lists", iv.len(), expected), input);
+        return;
+    }
+    let mut pos = 0;
+    let mut i = 0;
+    let mut seen_tables = 0;
+    while pos < sec.len() {
+        let h = match decode_v5_header(sec, pos, le) {
+            Ok(h) => h,
+            Err(e) => {
+                ctx.fail(&format!("header.{name}"), &format!("{name}: table header at {pos:#x}: {e}"), input);
+                return;
+            }
+        };
+        seen_tables += 1;
+        let Some(first) = iv.get(i) else {
+            ctx.fail(&sig, &format!("{name}: table at {pos:#x} holds no referenced list"), input);
+            return;
+        };
+        if h.version != 5 || h.seg != 0 || h.addr != first.3 {
+            ctx.fail(
+                &format!("header.{name}"),
+                &format!("{name}: table header at {pos:#x} is {h:?}; expected version 5, address_size {} (unit {}), segment_selector_size 0", first.3, first.2),
+                input,
+            );
+            return;
+        }
+        if h.fmt64 != first.4 {
+            ctx.obs("secondary.v5_table_format_differs_from_unit");
+        }
+        if h.count != 0 {
+            ctx.obs("secondary.v5_offset_entry_count_nonzero");
+        }
+        ctx.obs(if h.fmt64 { "header.v5.dwarf64" } else { "header.v5.dwarf32" });
+        let owner = first.2;
+        pos = h.body;
+        while let Some((start, end, u, _, _)) = iv.get(i) {
+            if *start >= h.end {
+                break;
+            }
+            if *start != pos || *u != owner {
+                ctx.fail(&sig, &format!("{name}: list of unit {u} at {start:#x}; table of unit {owner} is at {pos:#x} (gap = extra copy or garbage)"), input);
+                return;
+            }
+            pos = *end;
+            i += 1;
+        }
+        if pos != h.end {
+            ctx.fail(&sig, &format!("{name}: lists of the table end at {pos:#x}, unit_length says {:#x}", h.end), input);
+            return;
+        }
+    }
+    if i != iv.len() || seen_tables != tables {
+        ctx.fail(&sig, &format!("{name}: {seen_tables} tables (expected {tables}), {} of {} lists located inside tables", i, iv.len()), input);
+        return;
+    }
+    if tables > 0 {
+        ctx.obs("tiling.v5");
+    }
+}
+
+fn distinct_count(lists: &[ListSpec]) -> usize {
+    canon(lists).iter().enumerate().filter(|(i, c)| *i == **c).count()
+}
+
+fn run_case(ctx: &mut Ctx, stream: &str, spec: &CaseSpec) {
+    ctx.eval();
+    let raw0 = ctx.obs.get("violations_raw").copied().unwrap_or(0);
+    let verdict = model_verdict(spec);
+    let desc = format!("{spec:?}");
+    let input = || json!({"spec": desc});
+    let input: &dyn Fn() -> serde_json::Value = &input;
+
+    // coverage of the quantifier + non-triviality (judged on the generated case)
+    ctx.obs(if spec.le { "endian.le" } else { "endian.be" });
+    if spec.units.len() > 1 {
+        ctx.obs("units.multi");
+    }
+    let mut n_items = 0;
+    for us in &spec.units {
+        ctx.obs(&format!("ver.{}", us.enc.version));
+        ctx.obs(&format!("addr.{}", us.enc.addr));
+        ctx.obs(if us.enc.fmt64 { "fmt.64" } else { "fmt.32" });
+        ctx.obs(match us.low_pc {
+            LowPc::Absent => "lowpc.absent",
+            LowPc::Zero => "lowpc.zero",
+            LowPc::NonZero(_) => "lowpc.nonzero",
+        });
+        n_items += us.rlists.iter().chain(us.llists.iter()).map(|l| l.len()).sum::<usize>();
+    }
+    if n_items > 0 {
+        ctx.nontrivial(fnv(desc.as_bytes()) ^ fnv(stream.as_bytes()));
+    }
+    if verdict.has_collision {
+        ctx.obs("cls.Collision");
+    }
+    if spec.units.iter().any(|us| us.enc.version <= 4 && us.rlists.iter().chain(us.llists.iter()).flatten().any(|it| it.kind == Kind::StartLength && it.a.checked_add(it.b).is_none())) {
+        ctx.obs("cls.Overflow64");
+    }
+
+    // ---- write
+    let wout = match ctx.guard_raw("write::Dwarf::write", || build_and_write(spec)) {
+        Ok(w) => w,
+        Err(p) => {
+            if KNOWN_STARTLENGTH_OVERFLOW && verdict.has_overflow && p.message.contains("attempt to add with overflow") {
+                ctx.obs("known.startlength_overflow_panic");
+                ctx.obs("outcome.unjudged");
+                ctx.sample("known.startlength_overflow", || json!({"spec": desc.chars().take(1500).collect::<String>(), "panic": format!("{}:{}: {}", p.file, p.line, p.message)}));
+            } else {
+                ctx.report_panic("write::Dwarf::write", &p, input);
+            }
+            return;
+        }
+    };
+
+    // ---- identifiers: equal lists <=> equal ids
+    for (u, us) in spec.units.iter().enumerate() {
+        let (Some(rc), Some(lc)) = (wout.rcanon.get(u), wout.lcanon.get(u)) else { continue };
+        ctx.check_eq("ids.ranges", &canon(&us.rlists), rc, input);
+        ctx.check_eq("ids.locs", &canon(&us.llists), lc, input);
+    }
+    ctx.check_eq("table.get", &true, &wout.get_ok, input);
+
+    // ---- outcome
+    match (&verdict.expect, &wout.res) {
+        (Expect::MustErr(c), Ok(())) => {
+            ctx.obs(&format!("cls.{}", c.name()));
+            ctx.fail(
+                &format!("write.ok_for_unrepresentable.{}", c.name()),
+                &format!("write::Dwarf::write returned Ok for a case whose first unrepresentable item is {}", c.name()),
+                input,
+            );
+            return;
+        }
+        (Expect::MustErr(c), Err(e)) => {
+            ctx.obs("outcome.err");
+            ctx.obs(&format!("cls.{}", c.name()));
+            let variant: String = e.chars().take_while(|ch| ch.is_ascii_alphanumeric()).collect();
+            ctx.obs(&format!("err.{variant}"));
+            if let Some(c) = verdict.single_err {
+                let want = match c {
+                    Cls::Empty | Cls::DefaultBeforeV5 => "InvalidRange",
+                    Cls::NeedsBase => "MissingBaseAddress",
+                    Cls::ConflictsBase => "UnexpectedBaseAddress",
+                    _ => "ValueTooLarge",
+                };
+                if want != variant {
+                    ctx.obs("secondary.err_variant_differs");
+                }
+            }
+            return;
+        }
+        (Expect::MustOk, Err(e)) => {
+            ctx.fail("write.err_for_representable", &format!("write::Dwarf::write returned Err({e}) for a case in which every list is representable"), input);
+            return;
+        }
+        (Expect::MustOk, Ok(())) => ctx.obs("outcome.ok"),
+        (Expect::Unjudged, Ok(())) => {
+            ctx.obs("outcome.unjudged");
+            ctx.obs("unjudged.ok");
+        }
+        (Expect::Unjudged, Err(_)) => {
+            ctx.obs("outcome.unjudged");
+            ctx.obs("unjudged.err");
+            return;
+        }
+    }
+
+    // ---- read back
+    let secs = &wout.secs;
+    let le = spec.le;
+    let Some(rb) = ctx.guard("read_back", input, || read_back(secs, le)) else { return };
+    let runits = match rb {
+        Ok(u) => u,
+        Err(e) => {
+            ctx.fail("readback.error", &format!("reading the emitted sections back failed: {e}"), input);
+            return;
+        }
+    };
+    if !ctx.check_eq("readback.unit_count", &spec.units.len(), &runits.len(), input) {
+        return;
+    }
+    let offs = Offs { unit: runits.iter().map(|r| r.unit_off).collect(), die: runits.iter().map(|r| r.dies.clone()).collect() };
+    let mut ok = true;
+    for (u, (us, ru)) in spec.units.iter().zip(runits.iter()).enumerate() {
+        ok &= ctx.check_eq("readback.encoding", &(us.enc.version, us.enc.addr, us.enc.fmt64), &(ru.version, ru.addr, ru.fmt64), input);
+        ok &= ctx.check_eq("readback.low_pc", &low_pc_value(us.low_pc), &ru.low_pc, input);
+        ok &= ctx.check_eq("readback.die_count", &us.dies.len(), &ru.dies.len(), input);
+        ok &= ctx.check_eq("readback.attr_count", &(us.rattrs.len(), us.lattrs.len()), &(ru.rattrs.len(), ru.lattrs.len()), input);
+        if (0..us.dies.len()).any(|k| !ru.dies.contains_key(&k)) {
+            ctx.fail("readback.die_missing", &format!("unit {u}: not every generated entry was found in .debug_info"), input);
+            ok = false;
+        }
+    }
+    if !ok {
+        return;
+    }
+
+    let mut iv_ranges = vec![];
+    let mut iv_loc = vec![];
+    let mut iv_rnglists = vec![];
+    let mut iv_loclists = vec![];
+    let mut tiling_ok = !(verdict.has_collision || verdict.has_overflow);
+    for (u, (us, ru)) in spec.units.iter().zip(runits.iter()).enumerate() {
+        let legacy = us.enc.version <= 4;
+        for loc in [false, true] {
+            let (lists, attrs, rattrs) = if loc { (&us.llists, &us.lattrs, &ru.lattrs) } else { (&us.rlists, &us.rattrs, &ru.rattrs) };
+            let what = if loc { "locs" } else { "ranges" };
+            let fam = if legacy { "legacy" } else { "v5" };
+            let sec: &[u8] = match (loc, legacy) {
+                (false, true) => &secs.ranges,
+                (false, false) => &secs.rnglists,
+                (true, true) => &secs.loc,
+                (true, false) => &secs.loclists,
+            };
+            let model_canon = canon(lists);
+            // offsets per slot (first attribute of the slot)
+            let mut slot_off: Vec<Option<usize>> = vec![None; lists.len()];
+            for a in attrs {
+                let Some(ra) = rattrs.iter().find(|r| r.die == a.die && r.name == a.name) else {
+                    ctx.fail("readback.attr_missing", &format!("unit {u}: attribute {:#x} of entry d{} was not read back as a list reference", a.name, a.die), input);
+                    tiling_ok = false;
+                    continue;
+                };
+                match slot_off[a.list] {
+                    None => slot_off[a.list] = Some(ra.offset),
+                    Some(o) => {
+                        ctx.check_eq(&format!("offset.same_id.{what}"), &o, &ra.offset, input);
+                    }
+                }
+                let cls = classify_list(us.enc, us.low_pc, &lists[a.list]);
+                if !list_clean(&cls) {
+                    ctx.obs("skipped.unclean_list");
+                    continue;
+                }
+                let Some(items) = model_items(us.enc, &lists[a.list], u, &offs) else {
+                    ctx.harness_error("C16: model could not encode an expression (missing entry offset)");
+                    continue;
+                };
+                // 1. the bytes, by the harness decoder
+                let dec = if legacy { decode_legacy(sec, ra.offset, le, us.enc.addr, loc) } else { decode_v5(sec, ra.offset, le, us.enc.addr, loc) };
+                match dec {
+                    Ok((got, end)) => {
+                        if ctx.check_eq(&format!("bytes.{what}.{fam}"), &items, &got, input) {
+                            for it in &lists[a.list] {
+                                ctx.obs(&format!("kind.{what}.{}", it.kind.name()));
+                                if let Some(x) = &it.x {
+                                    xspec_obs(ctx, x);
+                                }
+                            }
+                        }
+                        match (loc, legacy) {
+                            (false, true) => iv_ranges.push((ra.offset, end, u)),
+                            (true, true) => iv_loc.push((ra.offset, end, u)),
+                            (false, false) => iv_rnglists.push((ra.offset, end, u, us.enc.addr, us.enc.fmt64)),
+                            (true, false) => iv_loclists.push((ra.offset, end, u, us.enc.addr, us.enc.fmt64)),
+                        }
+                    }
+                    Err(e) => {
+                        ctx.fail(&format!("bytes.{what}.{fam}"), &format!("unit {u}: list at {:#x} does not decode in the encoding of version {}: {e}", ra.offset, us.enc.version), input);
+                        tiling_ok = false;
+                    }
+                }
+                // 2. gimli's raw iterator
+                match &ra.raw {
+                    Ok(got) => {
+                        ctx.check_eq(&format!("raw.{what}.{fam}"), &items, got, input);
+                    }
+                    Err(e) => ctx.fail(&format!("raw.{what}.{fam}"), &format!("unit {u}: raw iterator failed: {e}"), input),
+                }
+                // 3. resolved through the unit's base address
+                let exp = resolve(us.enc, us.low_pc, &lists[a.list], &items);
+                match &ra.res {
+                    Ok(got) => match match_resolved(&exp, got) {
+                        Ok((must, absent, present, dflt)) => {
+                            ctx.obs_n("resolved.must", must);
+                            ctx.obs_n("resolved.optional_absent", absent);
+                            ctx.obs_n("resolved.optional_present", present);
+                            if dflt {
+                                ctx.obs("secondary.default_location_range_differs");
+                            }
+                        }
+                        Err(e) => ctx.fail(&format!("resolved.{what}.{fam}"), &format!("unit {u} (low_pc {:?}): {e}; model {exp:?}; read back {got:?}", us.low_pc), input),
+                    },
+                    Err(e) => ctx.fail(&format!("resolved.{what}.{fam}"), &format!("unit {u}: resolved iterator failed: {e}"), input),
+                }
+                ctx.obs(&format!("compared.{what}.{fam}"));
+                if model_canon[a.list] != a.list {
+                    ctx.obs("dup.exact");
+                }
+            }
+            // equal lists <=> one offset
+            if slot_off.iter().all(|o| o.is_some()) {
+                let offsets: Vec<usize> = slot_off.iter().map(|o| o.unwrap_or(0)).collect();
+                ctx.check_eq(&format!("offset.sharing.{what}"), &model_canon, &canon(&offsets), input);
+            } else {
+                tiling_ok = false;
+            }
+        }
+    }
+    // ---- one emitted copy per distinct list, nothing else in the sections
+    if tiling_ok && ctx.obs.get("violations_raw").copied().unwrap_or(0) == raw0 {
+        let legacy_units: Vec<&UnitSpec> = spec.units.iter().filter(|u| u.enc.version <= 4).collect();
+        let v5_units: Vec<&UnitSpec> = spec.units.iter().filter(|u| u.enc.version >= 5).collect();
+        tile_legacy(ctx, "debug_ranges", &secs.ranges, iv_ranges, legacy_units.iter().map(|u| distinct_count(&u.rlists)).sum(), input);
+        tile_legacy(ctx, "debug_loc", &secs.loc, iv_loc, legacy_units.iter().map(|u| distinct_count(&u.llists)).sum(), input);
+        tile_v5(ctx, "debug_rnglists", &secs.rnglists, le, iv_rnglists, v5_units.iter().filter(|u| !u.rlists.is_empty()).count(), v5_units.iter().map(|u| distinct_count(&u.rlists)).sum(), input);
+        tile_v5(ctx, "debug_loclists", &secs.loclists, le, iv_loclists, v5_units.iter().filter(|u| !u.llists.is_empty()).count(), v5_units.iter().map(|u| distinct_count(&u.llists)).sum(), input);
+    }
+    ctx.sample(stream, || json!({"spec": desc.chars().take(1500).collect::<String>(), "debug_ranges": hex(&secs.ranges), "debug_rnglists": hex(&secs.rnglists), "debug_loc": hex(&secs.loc), "debug_loclists": hex(&secs.loclists)}));
+}
+
+// ================================================================ generators
+
+fn bset(m: u64) -> Vec<u64> {
+    let mut v = vec![0, 1, 2, 0x10, 0x7f, 0x80, 0xfe, 0xff, m / 2, m / 2 + 1, m - 2, m - 1, m];
+    v.retain(|x| *x <= m);
+    v
+}
+
+/// An address that fits the address size, biased to boundaries.
+fn addr_val(r: &mut Rng, m: u64) -> u64 {
+    match r.below(8) {
+        0..=2 => *r.pick(&bset(m)),
+        3 | 4 => r.below(0x1000) & m,
+        5 => r.next() & m,
+        6 => m - r.below(4),
+        _ => (m / 2).wrapping_add(r.below(9)).wrapping_sub(4) & m,
+    }
+}
+
+fn off64(r: &mut Rng) -> u64 {
+    match r.below(4) {
+        0 => r.below(0x400),
+        1 => r.below(4),
+        _ => r.boundary(),
+    }
+}
+
+/// Make (a, b) a non-empty legacy pair that fits and does not start with the marker.
+fn fix_pair(a: u64, b: u64, m: u64) -> (u64, u64) {
+    let mut a = a & m;
+    let mut b = b & m;
+    if a == m {
+        a = m - 1;
+    }
+    if a == b {
+        b = if a == 0 { 1 } else { a - 1 };
+    }
+    (a, b)
+}
+
+fn gen_pair(r: &mut Rng, m: u64) -> (u64, u64) {
+    match r.below(8) {
+        0..=4 => {
+            let a = r.below(0x800) & m;
+            let b = a.saturating_add(1 + r.below(0x100)).min(m);
+            fix_pair(a, b, m)
+        }
+        5 | 6 => fix_pair(*r.pick(&bset(m)), *r.pick(&bset(m)), m),
+        _ => fix_pair(addr_val(r, m), addr_val(r, m), m),
+    }
+}
+
+fn gen_reg(r: &mut Rng) -> u16 {
+    *r.pick(&[0u16, 1, 31, 32, 33, 127, 128, 0x3fff, 0x4000, 0xffff])
+}
+
+fn gen_op(r: &mut Rng, u: usize, dc: &[usize], enc: Enc, nested: bool) -> XOp {
+    let m = mask_of(enc);
+    let k = r.usize(dc[u]);
+    let uu = r.usize(dc.len());
+    let kk = r.usize(dc[uu]);
+    let sc = |r: &mut Rng| r.boundary() as i64;
+    match r.below(30) {
+        0 => XOp::Simple(*r.pick(&[0x13u8, 0x1a, 0x1c, 0x22, 0x96, 0x9f, 0x9c, 0x97])),
+        1 => XOp::Addr(addr_val(r, m)),
+        2 => XOp::Constu(if r.bool() { r.below(34) } else { r.boundary() }),
+        3 => XOp::Consts(sc(r)),
+        4 => XOp::Fbreg(sc(r)),
+        5 => XOp::Breg(gen_reg(r), sc(r)),
+        6 => XOp::Reg(gen_reg(r)),
+        7 => XOp::Pick(*r.pick(&[0u8, 1, 2, 3, 255])),
+        8 => XOp::Deref,
+        9 => XOp::DerefSize(r.next() as u8),
+        10 => XOp::PlusUconst(r.boundary()),
+        11 => XOp::Piece(r.boundary()),
+        12 => XOp::BitPiece(r.boundary(), r.boundary()),
+        13 => {
+            let n = r.usize(6);
+            XOp::ImplicitValue(r.bytes(n))
+        }
+        14 => {
+            let n = r.usize(5);
+            XOp::ConstType(k, r.bytes(n))
+        }
+        15 => XOp::RegvalType(gen_reg(r), k),
+        16 | 27 => XOp::DerefType(r.next() as u8, k),
+        17 => XOp::Convert(if r.chance(3, 4) { Some(k) } else { None }),
+        18 => XOp::Reinterpret(if r.chance(3, 4) { Some(k) } else { None }),
+        19 | 28 => XOp::Call(k),
+        20 => XOp::ParameterRef(k),
+        21 => XOp::CallRef(uu, kk),
+        22 => XOp::VariableValue(uu, kk),
+        23 | 29 => {
+            if enc.version == 2 && enc.addr < 4 {
+                XOp::Constu(32)
+            } else {
+                XOp::ImplicitPointer(uu, kk, sc(r))
+            }
+        }
+        24 => {
+            if nested {
+                XOp::Fbreg(0)
+            } else {
+                let n = r.usize(3);
+                XOp::EntryValue((0..n).map(|_| gen_op(r, u, dc, enc, true)).collect())
+            }
+        }
+        25 => {
+            if nested {
+                XOp::Deref
+            } else {
+                XOp::SkipToEnd
+            }
+        }
+        _ => {
+            if nested {
+                XOp::Reg(3)
+            } else {
+                XOp::BraToEnd
+            }
+        }
+    }
+}
+
+fn gen_xspec(r: &mut Rng, u: usize, dc: &[usize], enc: Enc) -> XSpec {
+    match r.below(10) {
+        0 => {
+            let n = r.usize(7);
+            XSpec::Raw(r.bytes(n))
+        }
+        1 => XSpec::Ops(vec![]),
+        _ => {
+            let n = 1 + r.usize(4);
+            XSpec::Ops((0..n).map(|_| gen_op(r, u, dc, enc, false)).collect())
+        }
+    }
+}
+
+struct G<'a> {
+    u: usize,
+    dc: &'a [usize],
+    enc: Enc,
+    loc: bool,
+}
+
+impl G<'_> {
+    fn x(&self, r: &mut Rng, kind: Kind) -> Option<XSpec> {
+        if self.loc && kind != Kind::Base {
+            Some(gen_xspec(r, self.u, self.dc, self.enc))
+        } else {
+            None
+        }
+    }
+    fn item(&self, kind: Kind, a: u64, b: u64, r: &mut Rng) -> Item {
+        Item { kind, a, b, x: self.x(r, kind) }
+    }
+
+    /// A representable item for the state `have_base`.
+    fn good(&self, r: &mut Rng, have_base: bool) -> Item {
+        let m = mask_of(self.enc);
+        if self.enc.version >= 5 {
+            let nk = if self.loc { 5 } else { 4 };
+            return match r.below(nk) {
+                0 => self.item(Kind::Base, addr_val(r, m), 0, r),
+                1 => {
+                    let a = off64(r);
+                    let b = if r.chance(1, 5) { a } else if r.bool() { a.wrapping_add(1 + r.below(0x100)) } else { off64(r) };
+                    self.item(Kind::OffsetPair, a, b, r)
+                }
+                2 => {
+                    let (a, b) = if r.chance(1, 6) {
+                        let a = addr_val(r, m);
+                        (a, a)
+                    } else if r.bool() {
+                        gen_pair(r, m)
+                    } else {
+                        (addr_val(r, m), addr_val(r, m))
+                    };
+                    self.item(Kind::StartEnd, a, b, r)
+                }
+                3 => {
+                    let a = addr_val(r, m);
+                    let len = match r.below(6) {
+                        0 => 0,
+                        1 => 1,
+                        2 => r.below(0x200),
+                        3 => m - a,
+                        4 => (m - a).wrapping_add(1 + r.below(3)),
+                        _ => r.boundary(),
+                    };
+                    self.item(Kind::StartLength, a, len, r)
+                }
+                _ => self.item(Kind::Default, 0, 0, r),
+            };
+        }
+        if r.chance(1, 5) {
+            return self.item(Kind::Base, addr_val(r, m), 0, r);
+        }
+        if have_base {
+            let (a, b) = gen_pair(r, m);
+            self.item(Kind::OffsetPair, a, b, r)
+        } else if r.bool() {
+            let (a, b) = gen_pair(r, m);
+            self.item(Kind::StartEnd, a, b, r)
+        } else {
+            let a = addr_val(r, m).min(m - 1);
+            let room = m - a;
+            let len = match r.below(4) {
+                0 => 1,
+                1 => room,
+                _ => 1 + r.below(room.min(0x100)),
+            };
+            self.item(Kind::StartLength, a, len, r)
+        }
+    }
+
+    fn good_list(&self, r: &mut Rng, lp: LowPc) -> ListSpec {
+        let n = r.small(5) as usize;
+        let mut have = unit_has_base(lp);
+        let mut l = vec![];
+        for _ in 0..n {
+            let it = self.good(r, have);
+            have |= it.kind == Kind::Base;
+            l.push(it);
+        }
+        l
+    }
+
+    fn state_at(&self, lp: LowPc, l: &ListSpec, p: usize) -> bool {
+        unit_has_base(lp) || l[..p.min(l.len())].iter().any(|i| i.kind == Kind::Base)
+    }
+
+    /// Insert one item of class `cls` (falls back to another class where `cls` cannot
+    /// arise; the model's classification, not this intent, is the oracle).
+    fn inject(&self, r: &mut Rng, lp: LowPc, l: &mut ListSpec, cls: Cls) {
+        let m = mask_of(self.enc);
+        let legacy = self.enc.version <= 4;
+        let mut p = r.usize(l.len() + 1);
+        let mut have = self.state_at(lp, l, p);
+        let mut cls = cls;
+        if !legacy && cls != Cls::TooLarge {
+            return;
+        }
+        if cls == Cls::TooLarge && self.enc.addr >= 8 {
+            if !legacy {
+                return;
+            }
+            cls = Cls::Empty;
+        }
+        if cls == Cls::DefaultBeforeV5 && !self.loc {
+            cls = Cls::Empty;
+        }
+        if cls == Cls::NeedsBase && unit_has_base(lp) {
+            cls = Cls::Empty;
+        }
+        let it = match cls {
+            Cls::Empty => {
+                let v = if r.chance(1, 4) { 0 } else { addr_val(r, m) };
+                if have {
+                    self.item(Kind::OffsetPair, v, v, r)
+                } else if r.bool() {
+                    self.item(Kind::StartEnd, v, v, r)
+                } else {
+                    self.item(Kind::StartLength, v, 0, r)
+                }
+            }
+            Cls::NeedsBase => {
+                let first_base = l.iter().position(|i| i.kind == Kind::Base).unwrap_or(l.len());
+                p = r.usize(first_base + 1);
+                let (a, b) = gen_pair(r, m);
+                self.item(Kind::OffsetPair, a, b, r)
+            }
+            Cls::ConflictsBase => {
+                if !have {
+                    if let Some(i) = l.iter().position(|i| i.kind == Kind::Base) {
+                        p = i + 1 + r.usize(l.len() - i);
+                    } else {
+                        let b = self.item(Kind::Base, addr_val(r, m), 0, r);
+                        l.push(b);
+                        p = l.len();
+                    }
+                }
+                if r.bool() {
+                    let (a, b) = gen_pair(r, m);
+                    self.item(Kind::StartEnd, a, b, r)
+                } else {
+                    self.item(Kind::StartLength, addr_val(r, m).min(m - 1), 1, r)
+                }
+            }
+            Cls::DefaultBeforeV5 => self.item(Kind::Default, 0, 0, r),
+            Cls::TooLarge => {
+                let big = match r.below(3) {
+                    0 => m + 1,
+                    1 => m + 1 + r.below(0x100),
+                    _ => (r.boundary() | (m + 1)) & !m | (m + 1),
+                };
+                if !legacy {
+                    have = r.bool();
+                }
+                match r.below(4) {
+                    0 => self.item(Kind::Base, big, 0, r),
+                    _ if legacy && have => {
+                        if r.bool() {
+                            self.item(Kind::OffsetPair, 1, big, r)
+                        } else {
+                            self.item(Kind::OffsetPair, big, 2, r)
+                        }
+                    }
+                    1 => self.item(Kind::StartEnd, 1, big, r),
+                    2 => self.item(Kind::StartEnd, big, 2, r),
+                    _ => {
+                        if legacy && r.bool() {
+                            self.item(Kind::StartLength, m - 1, 2 + r.below(8), r)
+                        } else {
+                            self.item(Kind::StartLength, big, 1, r)
+                        }
+                    }
+                }
+            }
+            Cls::Collision => {
+                let v = addr_val(r, m).min(m - 1);
+                if have {
+                    self.item(Kind::OffsetPair, m, v, r)
+                } else {
+                    self.item(Kind::StartEnd, m, v, r)
+                }
+            }
+            Cls::Overflow64 => {
+                let a = if self.enc.addr >= 8 && r.bool() { u64::MAX - r.below(4) } else { addr_val(r, m).max(4) };
+                let len = (u64::MAX - a).wrapping_add(1 + r.below(3));
+                self.item(Kind::StartLength, a, len, r)
+            }
+            Cls::Ok => self.good(r, have),
+        };
+        l.insert(p.min(l.len()), it);
+    }
+
+    /// `n` list slots: fresh lists, exact duplicates and near-duplicates.
+    fn lists(&self, r: &mut Rng, lp: LowPc, n: usize, inject: Option<Cls>, near: &mut u32) -> Vec<ListSpec> {
+        let nf = 1 + r.usize(n);
+        let mut out: Vec<ListSpec> = (0..nf).map(|_| self.good_list(r, lp)).collect();
+        if let Some(cls) = inject {
+            let i = r.usize(nf);
+            self.inject(r, lp, &mut out[i], cls);
+        }
+        while out.len() < n {
+            let mut l = out[r.usize(out.len())].clone();
+            if r.chance(2, 5) {
+                *near += 1;
+                if l.is_empty() || r.bool() {
+                    let have = self.state_at(lp, &l, l.len());
+                    let it = self.good(r, have);
+                    l.push(it);
+                } else {
+                    l.pop();
+                }
+            }
+            let at = r.usize(out.len() + 1);
+            out.insert(at, l);
+        }
+        out
+    }
+}
+
+fn slot_count(r: &mut Rng) -> usize {
+    match r.below(4) {
+        0 => 1,
+        1 => 2,
+        2 => 1 + r.usize(4),
+        _ => 1 + r.usize(6),
+    }
+}
+
+struct Gen {
+    spec: CaseSpec,
+    near_dups: u32,
+}
+
+fn gen_case(r: &mut Rng) -> Gen {
+    let le = r.bool();
+    let nunits = 1 + r.chance(1, 3) as usize + r.chance(1, 6) as usize;
+    let mut units = vec![];
+    let mut slots = vec![];
+    for _ in 0..nunits {
+        let enc = Enc { le, fmt64: r.chance(1, 3), version: 2 + r.below(4) as u16, addr: *r.pick(&[1u8, 2, 4, 4, 4, 8, 8, 8]) };
+        let m = mask_of(enc);
+        let low_pc = match r.below(4) {
+            0 => LowPc::Absent,
+            1 => LowPc::Zero,
+            _ => LowPc::NonZero(match r.below(10) {
+                0 => m - r.below(2),
+                1 => m - 2 - r.below(0x20),
+                _ => addr_val(r, m).max(1),
+            }),
+        };
+        let (nr, nl) = (slot_count(r), slot_count(r));
+        let mut dies = vec![DieSpec { parent: 0, tag: 0x11 }];
+        for _ in 0..r.below(4) {
+            dies.push(DieSpec { parent: 0, tag: 0x24 });
+        }
+        let mut rattrs = vec![];
+        let mut lattrs = vec![];
+        let mut rdie = vec![];
+        for s in 0..nr {
+            let die = if s == 0 && r.chance(1, 3) {
+                0
+            } else {
+                let parent = if r.chance(1, 3) && !rdie.is_empty() { *r.pick(&rdie) } else { 0 };
+                dies.push(DieSpec { parent, tag: *r.pick(&[0x2eu16, 0x0b, 0x1d]) });
+                dies.len() - 1
+            };
+            rdie.push(die);
+            let name = if r.chance(1, 6) { 0x2c } else { 0x55 };
+            rattrs.push(AttrSpec { die, name, list: s });
+            if r.chance(1, 6) {
+                dies.push(DieSpec { parent: 0, tag: 0x0b });
+                rattrs.push(AttrSpec { die: dies.len() - 1, name: 0x55, list: s });
+            }
+        }
+        for s in 0..nl {
+            let die = if s < nr && r.chance(1, 3) {
+                rdie[s]
+            } else {
+                let parent = if r.chance(1, 2) { *r.pick(&rdie) } else { 0 };
+                dies.push(DieSpec { parent, tag: *r.pick(&[0x34u16, 0x05]) });
+                dies.len() - 1
+            };
+            let name = if r.chance(1, 4) { 0x40 } else { 0x02 };
+            lattrs.push(AttrSpec { die, name, list: s });
+            if r.chance(1, 6) {
+                dies.push(DieSpec { parent: 0, tag: 0x34 });
+                lattrs.push(AttrSpec { die: dies.len() - 1, name: 0x02, list: s });
+            }
+        }
+        slots.push((nr, nl));
+        units.push(UnitSpec { enc, low_pc, low_pc_last: r.bool(), decoys: r.below(8) as u8, dies, rlists: vec![], llists: vec![], rattrs, lattrs });
+    }
+    // what to inject, and where
+    let inject: Option<Cls> = match r.below(20) {
+        0..=11 => None,
+        12 | 13 => Some(Cls::Empty),
+        14 => Some(Cls::NeedsBase),
+        15 => Some(Cls::ConflictsBase),
+        16 => Some(Cls::DefaultBeforeV5),
+        17 => Some(Cls::TooLarge),
+        18 => Some(Cls::Collision),
+        _ => Some(Cls::Overflow64),
+    };
+    let target = {
+        let want_small = inject == Some(Cls::TooLarge);
+        let cands: Vec<usize> = (0..nunits).filter(|&i| if want_small { units[i].enc.addr < 8 } else { units[i].enc.version <= 4 }).collect();
+        if cands.is_empty() {
+            r.usize(nunits)
+        } else {
+            *r.pick(&cands)
+        }
+    };
+    let target_loc = if inject == Some(Cls::DefaultBeforeV5) { true } else { r.bool() };
+    let dc: Vec<usize> = units.iter().map(|u| u.dies.len()).collect();
+    let mut near = 0;
+    for u in 0..nunits {
+        let (enc, lp) = (units[u].enc, units[u].low_pc);
+        let inj = |loc: bool| if u == target && loc == target_loc { inject } else { None };
+        let g = G { u, dc: &dc, enc, loc: false };
+        units[u].rlists = g.lists(r, lp, slots[u].0, inj(false), &mut near);
+        let g = G { u, dc: &dc, enc, loc: true };
+        units[u].llists = g.lists(r, lp, slots[u].1, inj(true), &mut near);
+    }
+    Gen { spec: CaseSpec { le, units }, near_dups: near }
+}
+
+// ---------------------------------------------------------------- decision-table enumeration
+
+const TABLE_N: u64 = 64 * 3 * 2 * 2 * 5 * 10;
+
+fn table_case(idx: u64) -> Option<CaseSpec> {
+    let enc = Enc::nth(idx % 64);
+    let mut rest = idx / 64;
+    let lp_sel = rest % 3;
+    rest /= 3;
+    let loc = rest % 2 == 1;
+    rest /= 2;
+    let prebase = rest % 2 == 1;
+    rest /= 2;
+    let kind = [Kind::Base, Kind::OffsetPair, Kind::StartEnd, Kind::StartLength, Kind::Default][(rest % 5) as usize];
+    rest /= 5;
+    let pat = (rest % 10) as usize;
+    let m = mask_of(enc);
+    let small = enc.addr < 8;
+    let (a, b) = match kind {
+        Kind::Default => {
+            if !loc || pat != 0 {
+                return None;
+            }
+            (0, 0)
+        }
+        Kind::Base => match pat {
+            0 => (0x10, 0),
+            2 => (0, 0),
+            4 => (m, 0),
+            5 => (m - 1, 0),
+            7 if small => (m + 1, 0),
+            _ => return None,
+        },
+        Kind::OffsetPair | Kind::StartEnd => match pat {
+            0 => (0x10, 0x20),
+            1 => (0x10, 0x10),
+            2 => (0, 0),
+            3 => (0, 1),
+            4 => (m, 5),
+            5 => (m - 1, m),
+            6 => (0x20, 0x10),
+            7 if small => (m + 1, m + 2),
+            8 => (1, m),
+            9 => (0, m),
+            _ => return None,
+        },
+        Kind::StartLength => match pat {
+            0 => (0x10, 0x10),
+            1 => (0x10, 0),
+            2 => (0, 0),
+            3 => (0, 1),
+            4 => (m, 1),
+            5 => (m - 1, 1),
+            6 => (m - 3, 8),
+            7 if small => (1, m + 1),
+            8 => (1, m - 1),
+            9 => (0, m),
+            _ => return None,
+        },
+    };
+    let low_pc = match lp_sel {
+        0 => LowPc::Absent,
+        1 => LowPc::Zero,
+        _ => LowPc::NonZero(m / 4 + 1),
+    };
+    let x = |alt: bool| {
+        if !loc {
+            None
+        } else if alt {
+            Some(XSpec::Ops(vec![XOp::DerefType(4, 1), XOp::Call(2)]))
+        } else {
+            Some(XSpec::Ops(vec![XOp::Fbreg(-8)]))
+        }
+    };
+    let mut list = vec![];
+    if prebase {
+        list.push(Item { kind: Kind::Base, a: 0x40, b: 0, x: None });
+    }
+    list.push(Item { kind, a, b, x: if kind == Kind::Base { None } else { x(pat % 2 == 1) } });
+    if kind == Kind::Base {
+        // give the base address something to apply to
+        list.push(Item { kind: Kind::OffsetPair, a: 1, b: 2, x: x(false) });
+    }
+    let dies = vec![DieSpec { parent: 0, tag: 0x11 }, DieSpec { parent: 0, tag: 0x24 }, DieSpec { parent: 0, tag: 0x2e }];
+    let attr = vec![AttrSpec { die: 2, name: if loc { 0x02 } else { 0x55 }, list: 0 }];
+    let (rlists, llists, rattrs, lattrs) = if loc { (vec![], vec![list], vec![], attr) } else { (vec![list], vec![], attr, vec![]) };
+    Some(CaseSpec { le: enc.le, units: vec![UnitSpec { enc, low_pc, low_pc_last: pat % 2 == 0, decoys: (idx % 8) as u8, dies, rlists, llists, rattrs, lattrs }] })
+}
+
+pub fn run(ctx: &mut Ctx) {
+    for idx in 0..TABLE_N {
+        if !ctx.want("table", idx) {
+            continue;
+        }
+        let Some(spec) = table_case(idx) else { continue };
+        run_case(ctx, "table", &spec);
+    }
+    let n = ctx.size(60_000, 600_000, 8);
+    for i in 0..n {
+        if !ctx.want("rand", i) {
+            continue;
+        }
+        let mut r = ctx.rng("rand", i);
+        let g = gen_case(&mut r);
+        if g.near_dups > 0 {
+            ctx.obs_n("dup.near", g.near_dups as u64);
+        }
+        run_case(ctx, "rand", &g.spec);
+    }
+}
